@@ -404,13 +404,15 @@ impl TransformerContext {
     }
 
     pub fn inc_depth(&mut self) -> Result<()> {
-        self.current_depth += 1;
-        if self.current_depth > self.config.depth_limit {
+        // Check before incrementing: on failure the caller returns without
+        // a matching dec_depth(), so the counter must be left unchanged.
+        if self.current_depth >= self.config.depth_limit {
             return Err(SvgdxError::DepthLimitExceeded(
-                self.current_depth,
+                self.current_depth + 1,
                 self.config.depth_limit,
             ));
         }
+        self.current_depth += 1;
         Ok(())
     }
 
